@@ -452,10 +452,49 @@ static const char* skipwhite(const char *q) {
   return p;
 }
 
+// The decimal m * 10^k as the nearest double, when one rounding suffices: an integer below 2^64 is converted once; a
+// significand up to 2^53 is multiplied or divided once by a power of ten that is itself a double (10^0 .. 10^22).
+static bool _iwstrtod_exact(uint64_t m, int k, double *out) {
+  static const double p10[] = {
+    1e0,  1e1,  1e2,  1e3,  1e4,  1e5,  1e6,  1e7,  1e8,  1e9,  1e10, 1e11,
+    1e12, 1e13, 1e14, 1e15, 1e16, 1e17, 1e18, 1e19, 1e20, 1e21, 1e22
+  };
+  if (m == 0) {
+    *out = 0.0;
+    return true;
+  }
+  while (k < 0 && m % 10 == 0) { // 0.50 is 0.5
+    m /= 10;
+    ++k;
+  }
+  while (k > 0 && m <= UINT64_MAX / 10) { // 99999999999999999e1 is an integer below 2^64
+    m *= 10;
+    --k;
+  }
+  if (k == 0) {
+    *out = (double) m;
+    return true;
+  }
+  while (m > (1ULL << 53) && m % 10 == 0) { // 5e20 is 5 * 10^20
+    m /= 10;
+    ++k;
+  }
+  if (m > (1ULL << 53) || k < -22 || k > 22) {
+    return false;
+  }
+  *out = k > 0 ? (double) m * p10[k] : (double) m / p10[-k];
+  return true;
+}
+
 double iwstrtod(const char *str, char **end) {
   double d = 0.0;
   int sign;
   const char *p, *a;
+  // The digits are also gathered as the integer m with the decimal exponent k while they fit into 64 bits: `d` takes one
+  // rounding per digit and ends up to a few units in the last place away (0.3, 9223372036854775808)
+  uint64_t m = 0;
+  int k = 0, ex = 0, msign;
+  bool mfits = true;
 
   a = p = str;
   p = skipwhite(p);
@@ -468,10 +507,19 @@ double iwstrtod(const char *str, char **end) {
   } else if (*p == '+') {
     ++p;
   }
+  msign = sign;
   if (iwchars_is_digit(*p)) {
+    m = (uint64_t) (*p - '0');
     d = (double) (*p++ - '0');
     while (*p && iwchars_is_digit(*p)) {
       d = d * 10.0 + (double) (*p - '0');
+      if (m <= (UINT64_MAX - 9) / 10) {
+        m = m * 10 + (uint64_t) (*p - '0');
+      } else if (*p == '0') {
+        ++k;
+      } else {
+        mfits = false;
+      }
       ++p;
     }
     a = p;
@@ -490,6 +538,12 @@ double iwstrtod(const char *str, char **end) {
       while (*p && iwchars_is_digit(*p)) {
         f += base * (*p - '0');
         base /= 10.0;
+        if (k <= 0 && m <= (UINT64_MAX - 9) / 10) {
+          m = m * 10 + (uint64_t) (*p - '0');
+          --k;
+        } else if (*p != '0') {
+          mfits = false;
+        }
         ++p;
       }
     }
@@ -522,6 +576,7 @@ double iwstrtod(const char *str, char **end) {
         ++p;
       }
       e *= sign;
+      ex = e;
     } else if (!iwchars_is_digit(*(a - 1))) {
       a = str;
       goto done;
@@ -556,6 +611,12 @@ double iwstrtod(const char *str, char **end) {
   }
 
 done:
+  if (a != str && mfits) {
+    double x;
+    if (_iwstrtod_exact(m, k + ex, &x)) {
+      d = msign * x;
+    }
+  }
   if (!isfinite(d)) {
     errno = ERANGE; // the digits denote a number beyond the double range: not a value (printed it would be `inf`)
   }
